@@ -36,6 +36,19 @@ optima_qtt          searches tt_to_qtt(Y, 1e-12, 100); the same claims hold for 
                     must be exact on the max-modulus side.
 functional          rank-1 coefficient tensor: returned point in [-1,1]^d and |interpolant| there >=
                     (1-1e-6) * prod_k max_{20001-point grid}|f_k| (independent Chebyshev evaluation and func_get).
+wide dynamic range  sub-check `spike` (and kind `spike` of `qtt`): entries of order one plus one or two isolated entries of
+                    modulus A = 1e3..1e12 (either sign), full beam.  The claims are the ones above, nothing is added; the
+                    point is that tol_opp stays SMALL against the spread of the order-one entries when the rank-1 spike
+                    block is balanced over the cores like teneva.delta: S ~ A, S_Z ~ A^2*prod(1+n_k), hence
+                    tol_opp ~ 8*K_Z*eps*prod(1+n_k)*A  (~1e-3..1e-1 at A = 1e8..1e10 for sizes <= 64), so an opposite-side
+                    extremum that is merely "some order-one entry" is rejected (labels tol_opp/spread:* give the histogram).
+                    Badly balanced layouts (A in one core) are generated too; there the normwise bounds are loose.
+call histories      sub-check `history` (and the `hist` part of `func`): the routines are pure functions of the VALUES of
+                    the cores at the time of the call.  One list object is searched, refilled with another tensor of the
+                    same mode sizes (item assignment / slice assignment / clear+extend with new arrays, in-place overwrite
+                    of the same arrays, the overwritten arrays in a new list; all or some cores; equal or different
+                    ranks), and searched again with a drawn sequence of routines: every answer must be valid and exact
+                    (full beam / rank 1) for the tensor the list holds at that moment.
 """
 import math
 import itertools
@@ -56,8 +69,13 @@ RULE = ("Hypothesis draws TT specs (d 2..5(6), mode sizes 1..5, rank profiles ra
         ">= size}, both sweep directions; optima_qtt on shapes [2^q]*d, q 1..3, incl. Kronecker-separable rank-1 inputs; "
         "rank-1 Chebyshev coefficient tensors with mode sizes 1..7 for the functional variant; an exhaustive sweep over "
         "integer tensors of shapes [2,2]/[2,3]/[3,2] (rank 1, entries -2..2, every k; rank 2 [2,2], entries -1..1; the quick "
-        "tier sweeps fixed subsets: 1/16 of the two larger shapes, 1/3 of the rank-2 part). Oracle = dense enumeration of all entries. Non-trivial = at least two modes of size >= 2 "
-        "and (some rank >= 2, or tied extremal values, or rank 1 with k < size); functional: >= 2 modes of size >= 3; "
+        "tier sweeps fixed subsets: 1/16 of the two larger shapes, 1/3 of the rank-2 part); wide-dynamic-range tensors (order-one "
+        "base + 1..2 isolated entries of modulus 1e3..1e12, either sign, balanced or one-core layout, global scale 2**(g*d), "
+        "full beam; also for optima_qtt); call histories on ONE list object (2..3 tensors of the same mode sizes, refilled by "
+        "item/slice assignment, clear+extend, in-place overwrite, overwritten arrays in a new list, all or some cores, 1..3 "
+        "drawn routine calls incl. optima_qtt on power-of-two shapes after every refill; the same for optima_func_tt_beam). Oracle = dense enumeration of all entries. Non-trivial = at least two modes of size >= 2 "
+        "and (some rank >= 2, or tied extremal values, or rank 1 with k < size); functional: >= 2 modes of size >= 3; history: a call "
+        "after a refill that changed the values, with k >= size or rank-1 content; "
         "distinct by SHA-1 of the case.")
 TOLERANCES = ("validity: |y - dense[i]| <= 32*(d+sum r+max n)*eps*E(|cores|)[i] (== on small-integer cores); max-modulus under a "
               "full beam: tau = 9*K*eps*prod||G_k||_F (rank 1: 9*K*eps*max|Y|); opposite extremum: 2*tau + min(sqrt(t), t/(D-tau)), "
@@ -72,6 +90,9 @@ ASSUMPTIONS = [
     "functional variant: rank-1 coefficient tensors only (property text); default interval [-1, 1]",
     "open findings rank1-opposite-side / rank1-qtt-maxmod are excluded by coded predicates and counted",
     "NumPy dense enumeration is the reference; BLAS single-threaded (deterministic repeated calls)",
+    "call histories: a refill keeps the mode sizes (ranks may change when whole cores are assigned); the reference is recomputed "
+    "from a snapshot of the list after every refill; an open finding met in the middle of a history is reported after its last call",
+    "spike families: only the generic full-beam / validity claims are asserted (tolerances derived as everywhere else)",
 ]
 
 GRID = np.linspace(-1.0, 1.0, 20001)
@@ -269,48 +290,48 @@ def labels_for(ctx, ref, k, spec=None):
 
 # ------------------------------------------------------------------------------------------------ TT routines
 
-def run_tt(Y, k, ctx, exact, spec=None, ret_all=True):
-    ref = Ref(Y)
+def check_beam(ctx, Y, ref, k, l2r, ret_all=True):
+    """optima_tt_beam in one sweep direction (single answer, optionally also the ret_all table)."""
     n, d = ref.n, ref.d
-    labels_for(ctx, ref, k, spec)
-    Y0 = [G.copy() for G in Y]
     full = k >= ref.size
+    what = f"optima_tt_beam(l2r={l2r})"
+    i = ctx.lib(teneva.optima_tt_beam, Y, k, l2r)
+    ii = check_index(ctx, i, n, what)
+    f = float(ref.F[ii])
+    if full or ref.rank1:
+        ctx.check(abs(f) >= ref.mm - ref.tau, f"{what}: " + ("full beam (k >= size)" if full else "rank-1 tensor") +
+                  " but the returned index is not a maximum-modulus element", got=f, true_maxmod=ref.mm, tau=ref.tau,
+                  index=list(ii), k=k, size=ref.size, shape=n)
+    if not ret_all:
+        return
+    I = ctx.lib(teneva.optima_tt_beam, Y, k, l2r, True)
+    ctx.check(isinstance(I, np.ndarray) and I.ndim == 2 and I.shape[1] == d and I.dtype.kind in "iu",
+              f"{what}, ret_all: not a 2-D integer array with d columns", got=repr(getattr(I, "shape", None)))
+    ctx.check(1 <= I.shape[0] <= k, f"{what}, ret_all: number of rows not in 1..k", rows=int(I.shape[0]), k=k)
+    ctx.check(bool(np.all(I >= 0) and np.all(I < np.array(n)[None, :])), f"{what}, ret_all: index out of bounds")
+    ctx.check(len({tuple(r) for r in I.tolist()}) == I.shape[0], f"{what}, ret_all: duplicate multi-indices", I=I.tolist()[:12])
+    ctx.check(I[0].tolist() == list(ii), f"{what}: first row with ret_all differs from the single answer", a=I[0].tolist(), b=list(ii))
+    if full:
+        ctx.check(I.shape[0] == ref.size, f"{what}, ret_all: k >= size but not every multi-index is returned",
+                  rows=int(I.shape[0]), size=ref.size)
+    # the beam keeps k rows after every core whenever that many exist (mechanism of the anchor)
+    ctx.check(I.shape[0] == expected_rows(n, k, l2r), f"{what}, ret_all: unexpected number of candidates",
+              rows=int(I.shape[0]), expected=expected_rows(n, k, l2r))
+    if full or ref.rank1:
+        # nothing relevant is pruned -> the candidates are the entries of largest modulus, best first (rank 1: an
+        # entry among the m largest has each of its prefixes among the m largest prefixes, so top-m is greedy too)
+        vals = np.abs(ref.F[tuple(I.T)])
+        ctx.check(bool(np.all(vals[:-1] >= vals[1:] - 2 * ref.tau)), f"{what}, ret_all: candidates are not ordered by decreasing modulus",
+                  vals=vals.tolist()[:12], tau=ref.tau)
+        best = np.sort(np.abs(ref.F).ravel())[::-1][:I.shape[0]]
+        ctx.check(bool(np.all(np.sort(vals)[::-1] >= best - 2 * ref.tau)), f"{what}, ret_all: candidates are not the largest moduli",
+                  vals=vals.tolist()[:12], best=best.tolist()[:12], tau=ref.tau, k=k)
 
-    # beam, both directions
-    for l2r in (True, False):
-        what = f"optima_tt_beam(l2r={l2r})"
-        i = ctx.lib(teneva.optima_tt_beam, Y, k, l2r)
-        ii = check_index(ctx, i, n, what)
-        f = float(ref.F[ii])
-        if full or ref.rank1:
-            ctx.check(abs(f) >= ref.mm - ref.tau, f"{what}: " + ("full beam (k >= size)" if full else "rank-1 tensor") +
-                      " but the returned index is not a maximum-modulus element", got=f, true_maxmod=ref.mm, tau=ref.tau,
-                      index=list(ii), k=k, size=ref.size, shape=n)
-        if ret_all:
-            I = ctx.lib(teneva.optima_tt_beam, Y, k, l2r, True)
-            ctx.check(isinstance(I, np.ndarray) and I.ndim == 2 and I.shape[1] == d and I.dtype.kind in "iu",
-                      f"{what}, ret_all: not a 2-D integer array with d columns", got=repr(getattr(I, "shape", None)))
-            ctx.check(1 <= I.shape[0] <= k, f"{what}, ret_all: number of rows not in 1..k", rows=int(I.shape[0]), k=k)
-            ctx.check(bool(np.all(I >= 0) and np.all(I < np.array(n)[None, :])), f"{what}, ret_all: index out of bounds")
-            ctx.check(len({tuple(r) for r in I.tolist()}) == I.shape[0], f"{what}, ret_all: duplicate multi-indices", I=I.tolist()[:12])
-            ctx.check(I[0].tolist() == list(ii), f"{what}: first row with ret_all differs from the single answer", a=I[0].tolist(), b=list(ii))
-            if full:
-                ctx.check(I.shape[0] == ref.size, f"{what}, ret_all: k >= size but not every multi-index is returned",
-                          rows=int(I.shape[0]), size=ref.size)
-            # the beam keeps k rows after every core whenever that many exist (mechanism of the anchor)
-            ctx.check(I.shape[0] == expected_rows(n, k, l2r), f"{what}, ret_all: unexpected number of candidates",
-                      rows=int(I.shape[0]), expected=expected_rows(n, k, l2r))
-            if full or ref.rank1:
-                # nothing relevant is pruned -> the candidates are the entries of largest modulus, best first (rank 1: an
-                # entry among the m largest has each of its prefixes among the m largest prefixes, so top-m is greedy too)
-                vals = np.abs(ref.F[tuple(I.T)])
-                ctx.check(bool(np.all(vals[:-1] >= vals[1:] - 2 * ref.tau)), f"{what}, ret_all: candidates are not ordered by decreasing modulus",
-                          vals=vals.tolist()[:12], tau=ref.tau)
-                best = np.sort(np.abs(ref.F).ravel())[::-1][:I.shape[0]]
-                ctx.check(bool(np.all(np.sort(vals)[::-1] >= best - 2 * ref.tau)), f"{what}, ret_all: candidates are not the largest moduli",
-                          vals=vals.tolist()[:12], best=best.tolist()[:12], tau=ref.tau, k=k)
 
-    # best of both directions
+def check_tt_max(ctx, Y, ref, k, exact):
+    """optima_tt_max: best of both sweep directions."""
+    n = ref.n
+    full = k >= ref.size
     i, y = ctx.lib(teneva.optima_tt_max, Y, k)
     ii = check_index(ctx, i, n, "optima_tt_max")
     y = check_value(ctx, ref, ii, y, "optima_tt_max", exact)
@@ -318,7 +339,10 @@ def run_tt(Y, k, ctx, exact, spec=None, ret_all=True):
         ctx.check(abs(y) >= ref.mm - ref.tau, "optima_tt_max: " + ("full beam (k >= size)" if full else "rank-1 tensor") +
                   " but the maximum-modulus element was missed", got=y, true_maxmod=ref.mm, tau=ref.tau, k=k, size=ref.size, shape=n)
 
-    # min and max
+
+def check_optima_tt(ctx, Y, ref, k, exact):
+    """optima_tt: minimum and maximum."""
+    n = ref.n
     out = ctx.lib(teneva.optima_tt, Y, k)
     ctx.check(isinstance(out, tuple) and len(out) == 4, "optima_tt: not a 4-tuple")
     i_min, y_min, i_max, y_max = out
@@ -327,8 +351,23 @@ def run_tt(Y, k, ctx, exact, spec=None, ret_all=True):
     y_min = check_value(ctx, ref, a, y_min, "optima_tt(y_min)", exact)
     y_max = check_value(ctx, ref, b, y_max, "optima_tt(y_max)", exact)
     ctx.check(y_min <= y_max, "optima_tt: y_min > y_max", y_min=y_min, y_max=y_max)
+    return y_min, y_max
+
+
+def check_unmodified(ctx, Y, Y0):
     for G, G0 in zip(Y, Y0):
         ctx.check(np.array_equal(G, G0), "the input TT-cores were modified")
+
+
+def run_tt(Y, k, ctx, exact, spec=None, ret_all=True):
+    ref = Ref(Y)
+    labels_for(ctx, ref, k, spec)
+    Y0 = [G.copy() for G in Y]
+    for l2r in (True, False):                              # beam, both directions
+        check_beam(ctx, Y, ref, k, l2r, ret_all)
+    check_tt_max(ctx, Y, ref, k, exact)                    # best of both directions
+    y_min, y_max = check_optima_tt(ctx, Y, ref, k, exact)  # min and max
+    check_unmodified(ctx, Y, Y0)
     check_pair(ctx, ref, y_min, y_max, k, "optima_tt")
     return ref
 
@@ -381,6 +420,212 @@ def rank1_cases(draw, tier):
     size = int(np.prod(base["n"]))
     kmode = draw(st.sampled_from(["one", "small", "small", "any", "full"]))
     return {"Y": {"base": base, "shift": "none"}, "k": draw_k(draw, size, kmode), "kmode": kmode}
+
+
+# ------------------------------------------------------------------------------------------------ wide dynamic range (spikes)
+
+SPIKE_E10 = (3, 4, 5, 6, 7, 8, 8, 9, 9, 9, 10, 10, 10, 11, 11, 12)
+
+
+def add_spikes(Y, spikes):
+    """Y + sum_j amp_j * delta(p_j) by own block assembly, amp = sgn * mant * 10**e10.
+
+    lay 'bal': |amp|**(1/d) in every core of the rank-1 block (the layout of teneva.delta; the product of the core norms of
+    Y and of (Y - y1)^2 then stays close to the tensor norm, so tau and t of `Ref` are small multiples of eps*|amp| resp.
+    eps*amp^2);  'front' / 'back': amp in the first / last core, unit entries elsewhere (badly balanced cores: valid input,
+    the normwise bounds are then far from tight).
+    """
+    d = len(Y)
+    for sp in spikes:
+        amp = sp["sgn"] * sp["mant"] * 10.0 ** sp["e10"]
+        Z = []
+        for k, G in enumerate(Y):
+            r1, m, r2 = G.shape
+            if sp["lay"] == "bal":
+                c = abs(amp) ** (1.0 / d) * (math.copysign(1.0, amp) if k == d - 1 else 1.0)
+            elif sp["lay"] == "front":
+                c = amp if k == 0 else 1.0
+            else:
+                c = amp if k == d - 1 else 1.0
+            v = np.zeros((1, m, 1))
+            v[0, sp["p"][k], 0] = c
+            if k == 0:
+                H = np.concatenate([G, v], axis=2)
+            elif k == d - 1:
+                H = np.concatenate([G, v], axis=0)
+            else:
+                H = np.zeros((r1 + 1, m, r2 + 1))
+                H[:r1, :, :r2] = G
+                H[r1:, :, r2:] = v
+            Z.append(H)
+        Y = Z
+    return Y
+
+
+@st.composite
+def spike_cases(draw, tier):
+    """Base tensor of order one plus one or two isolated entries of modulus 1e3..1e12 (all times 2**g in every core), full beam."""
+    d = draw(st.sampled_from([2, 2, 3, 3, 4]))
+    lo = draw(st.sampled_from([1, 2, 2, 2]))
+    n = gen._cap_shape([draw(st.integers(lo, 5 if d == 2 else 4)) for _ in range(d)], 64 if tier == "quick" else 256)
+    base = draw(gen.tt_specs(shape=n, r_max=3, families=("gauss", "gauss", "float", "dyadic", "smallint"),
+                             rank_families=("rank1", "uniform", "ragged"), entries_max=300))
+    spikes = []
+    for _ in range(draw(st.sampled_from([1, 1, 1, 2]))):
+        spikes.append({"p": [draw(st.integers(0, m - 1)) for m in n], "sgn": draw(st.sampled_from([-1, 1])),
+                       "e10": draw(st.sampled_from(SPIKE_E10)), "mant": draw(st.sampled_from([1.0, 1.0, 2.5, 7.0])),
+                       "lay": draw(st.sampled_from(["bal", "bal", "bal", "front", "back"]))})
+    size = int(np.prod(n))
+    kmode = draw(st.sampled_from(["full", "full", "full", "full", "full", "any"]))
+    return {"Y": base, "spikes": spikes, "g": draw(st.sampled_from([0, 0, 0, -8, -3, 2, 6])), "k": draw_k(draw, size, kmode),
+            "kmode": kmode}
+
+
+def prop_spike(case, ctx):
+    base = gen.build_tt(case["Y"])
+    Y = [G * 2.0 ** case["g"] for G in add_spikes(base, case["spikes"])]      # global scale 2**(g*d), balanced over the cores
+    base = [G * 2.0 ** case["g"] for G in base]
+    ref = run_tt(Y, case["k"], ctx, False, case["Y"], ret_all=True)
+    Fb = dense(base)
+    spread = float(Fb.max() - Fb.min())
+    amp = max(sp["mant"] * 10.0 ** sp["e10"] for sp in case["spikes"]) * 2.0 ** (case["g"] * len(base))
+    ctx.label(f"spikes=={len(case['spikes'])}", *("lay:" + sp["lay"] for sp in case["spikes"]))
+    if spread > 0:
+        ctx.label("amp/spread:1e%d" % int(math.floor(math.log10(amp / spread))))
+        if case["k"] >= ref.size:
+            # where the check has teeth: the admitted error of the opposite-side extremum against the spread of the base entries
+            ctx.label("tol_opp/spread:" + ("<=1e-3" if ref.tol_opp <= 1e-3 * spread else "<=1e-1" if ref.tol_opp <= 0.1 * spread
+                                           else "<=1" if ref.tol_opp <= spread else ">1"))
+
+
+# ------------------------------------------------------------------------------------------------ call histories on one list object
+
+HIST_ROUTINES = ("beam_l2r", "beam_r2l", "beam_l2r_all", "beam_r2l_all", "tt_max", "tt_max", "optima_tt")
+FILL_MODES_ANY = ("setitem", "slice", "clear_extend", "inplace", "inplace", "inplace_newlist")
+FILL_MODES_LIST = ("setitem", "slice", "clear_extend")
+
+
+@st.composite
+def sibling_specs(draw, n, r, families):
+    """Another tensor with the same mode sizes AND ranks (so that cores can be overwritten in place, one by one)."""
+    fam = draw(st.sampled_from([f for f in families if f != "explicit"]))
+    spec = {"n": list(n), "r": list(r), "fam": fam, "rfam": "sibling", "seed": draw(gen.seeds)}
+    lay = draw(st.sampled_from(["C", "C", "C", "F", "N"]))
+    if lay != "C":
+        spec["layout"] = lay
+    if fam == "scaled":
+        spec["exp"] = [draw(st.integers(-30, 30)) for _ in n]
+    if fam in ("rank_deficient", "zero"):
+        spec["k"] = draw(st.integers(0, len(n) - 1))
+        spec["mode"] = draw(st.integers(0, 3))
+    return spec
+
+
+@st.composite
+def history_cases(draw, tier):
+    """One list object, refilled between the searches: [calls on T0] fill(T1) [calls] (fill(T2) [calls])."""
+    big = tier != "quick"
+    if draw(st.integers(0, 3)) == 0:                 # power-of-two shape: optima_qtt joins the routines
+        q = draw(st.integers(1, 2))
+        d = draw(st.integers(2, {1: 5, 2: 3}[q]))
+        kw = dict(shape=[2 ** q] * d, r_max=3, families=QTT_FAMILIES, entries_max=400)
+        routines = HIST_ROUTINES + ("optima_qtt", "optima_qtt")
+    else:
+        q = 0
+        kw = dict(d_max=5 if big else 4, n_max=5 if big else 4, size_max=256 if big else 81, r_max=4 if big else 3,
+                  entries_max=600 if big else 300)
+        routines = HIST_ROUTINES
+    rf = draw(st.sampled_from([("rank1",), gen.RANK_FAMILIES, gen.RANK_FAMILIES]))
+    first = draw(gen.tt_specs(rank_families=rf, **kw))
+    n, size = first["n"], int(np.prod(first["n"]))
+    same = draw(st.integers(0, 3)) != 0              # all tensors share the ranks -> in-place and partial refills are possible
+    fams = kw.get("families", gen.FAMILIES)
+    T, rounds = [first], []
+    k_main = draw_k(draw, size, draw(st.sampled_from(["full", "full", "full", "any", "small", "one"])))
+    for j in range(draw(st.integers(2, 3))):
+        rnd = {"calls": []}
+        if j > 0:
+            if same:
+                T.append(draw(sibling_specs(n, first["r"], fams)))
+                mode = draw(st.sampled_from(FILL_MODES_ANY))
+                mask = [True] * len(n)
+                if mode not in ("slice", "clear_extend") and draw(st.integers(0, 2)) == 0:      # only some cores change
+                    mask = [draw(st.booleans()) for _ in n]
+                    mask[draw(st.integers(0, len(n) - 1))] = True
+            else:
+                T.append(draw(gen.tt_specs(**{**kw, "shape": n, "rank_families": rf})))
+                mode, mask = draw(st.sampled_from(FILL_MODES_LIST)), [True] * len(n)
+            rnd["fill"] = {"src": j, "mode": mode, "mask": mask}
+        for _ in range(draw(st.integers(1, 3))):
+            km = draw(st.sampled_from(["main", "main", "main", "full", "any", "one"]))
+            rnd["calls"].append([draw(st.sampled_from(routines)), k_main if km == "main" else draw_k(draw, size, km)])
+        rounds.append(rnd)
+    return {"T": T, "rounds": rounds, "q": q}
+
+
+def refill(Y, src, mode, mask):
+    """Put the cores `src` (arrays not used for anything else) into the list object Y; returns the list the caller goes on with."""
+    d = len(src)
+    if mode == "slice":
+        Y[:] = list(src)
+    elif mode == "clear_extend":
+        Y.clear()
+        Y.extend(src)
+    elif mode == "setitem":
+        for j in range(d):
+            if mask[j]:
+                Y[j] = src[j]
+    else:                                             # the arrays themselves are reused
+        for j in range(d):
+            if mask[j]:
+                Y[j][...] = src[j]
+        if mode == "inplace_newlist":
+            return list(Y)                            # new list object holding the same (overwritten) arrays
+    return Y
+
+
+def prop_history(case, ctx):
+    T = [build({"base": sp, "shift": "none"}) for sp in case["T"]]
+    q, d = case["q"], len(case["T"][0]["n"])
+    Y = list(T[0])
+    exact = exact_ok(case["T"][0])
+    ref = Ref(Y)
+    ctx.label(*gen.spec_labels(case["T"][0]))
+    ctx.label("pow2_shape" if q else "general_shape", "rank1" if ref.rank1 else "rank>=2")
+    pending, teeth, refills = None, False, 0
+    for rnd in case["rounds"]:
+        f = rnd.get("fill")
+        if f is not None:
+            before = [np.array(G) for G in Y]
+            Y = refill(Y, T[f["src"]], f["mode"], f["mask"])
+            exact = exact_ok(case["T"][f["src"]]) and (exact or all(f["mask"]))
+            ref = Ref([np.array(G) for G in Y])
+            changed = any(G.shape != H.shape or not np.array_equal(G, H) for G, H in zip(Y, before))
+            refills += changed
+            ctx.label("fill:" + f["mode"], "fill:all_cores" if all(f["mask"]) else "fill:some_cores")
+        for routine, k in rnd["calls"]:
+            ctx.inner(1)
+            Y0 = [np.array(G) for G in Y]
+            try:
+                if routine.startswith("beam"):
+                    check_beam(ctx, Y, ref, k, "l2r" in routine, routine.endswith("_all"))
+                elif routine == "tt_max":
+                    check_tt_max(ctx, Y, ref, k, exact)
+                elif routine == "optima_tt":
+                    y_min, y_max = check_optima_tt(ctx, Y, ref, k, exact)
+                    check_unmodified(ctx, Y, Y0)
+                    check_pair(ctx, ref, y_min, y_max, k, "optima_tt")
+                else:
+                    run_qtt(ctx, Y, k, q, d, exact, qsep=False, labels=False)
+            except harness.core.KnownFinding as e:       # an open finding does not end the history: a later call may still fail
+                pending = pending or e
+            check_unmodified(ctx, Y, Y0)
+            if refills and (k >= ref.size or ref.rank1):
+                teeth = True
+            ctx.label("after_refill:" + routine if refills else "first:" + routine)
+    ctx.nontrivial(teeth and sum(1 for m in ref.n if m >= 2) >= 2)
+    if pending is not None:
+        raise pending
 
 
 # ------------------------------------------------------------------------------------------------ exhaustive small tensors
@@ -469,12 +714,18 @@ def qtt_cases(draw, tier):
     q = draw(st.integers(1, 3))
     d_max = {1: 6, 2: 4, 3: 3}[q] if tier == "quick" else {1: 8, 2: 5, 3: 3}[q]
     d = draw(st.integers(2, d_max))
-    kind = draw(st.sampled_from(["general", "general", "rank1", "qsep"]))
+    kind = draw(st.sampled_from(["general", "general", "general", "rank1", "rank1", "qsep", "qsep", "spike"]))
     size = 2 ** (q * d)
-    kmode = draw(st.sampled_from(["full", "full", "any", "small", "one"]))
+    kmode = draw(st.sampled_from(["full", "full", "any", "small", "one"])) if kind != "spike" else "full"
     case = {"q": q, "d": d, "kind": kind, "k": draw_k(draw, size, kmode), "kmode": kmode}
     if kind == "qsep":
         case["Y"] = {"d": d, "q": q, "fam": draw(st.sampled_from(["smallint", "dyadic", "float", "gauss"])), "seed": draw(gen.seeds)}
+    elif kind == "spike":
+        # wide dynamic range (see spike_cases): base of order one + one isolated entry, balanced layout, full beam
+        case["Y"] = draw(gen.tt_specs(shape=[2 ** q] * d, r_max=2, families=("gauss", "float", "dyadic"),
+                                      rank_families=("rank1", "uniform", "ragged"), entries_max=300))
+        case["spikes"] = [{"p": [draw(st.integers(0, 2 ** q - 1)) for _ in range(d)], "sgn": draw(st.sampled_from([-1, 1])),
+                           "e10": draw(st.sampled_from(SPIKE_E10)), "mant": draw(st.sampled_from([1.0, 2.5, 7.0])), "lay": "bal"}]
     else:
         rf = ("rank1",) if kind == "rank1" else ("uniform", "ragged", "over_ranked", "rank1")
         case["Y"] = draw(gen.tt_specs(shape=[2 ** q] * d, r_max=3, families=QTT_FAMILIES, rank_families=rf, entries_max=600))
@@ -483,21 +734,8 @@ def qtt_cases(draw, tier):
     return case
 
 
-def prop_qtt(case, ctx):
-    q, d, k, kind = case["q"], case["d"], case["k"], case["kind"]
-    if kind == "qsep":
-        Y = build_qsep(case["Y"])
-        ex = case["Y"]["fam"] == "smallint"
-    else:
-        Y = gen.build_tt(case["Y"])
-        ex = exact_ok(case["Y"])
-        ctx.label(*gen.spec_labels(case["Y"]))
-    n = [2 ** q] * d
-    Y0 = [G.copy() for G in Y]
-    ctx.label(f"q=={q}", "kind:" + kind)
-
-    # index mapping (grid.ind_qtt_to_tt): single (list / array) and batch spelling against the bit formula
-    Iq = case["Iq"]
+def check_ind_qtt_to_tt(ctx, Iq, d, q):
+    """Index mapping (grid.ind_qtt_to_tt): single (list / array) and batch spelling against the bit formula."""
     want = [own_ind_qtt_to_tt(iq, d, q) for iq in Iq]
     got = ctx.lib(teneva.ind_qtt_to_tt, np.array(Iq, dtype=int), q)
     ctx.check(isinstance(got, np.ndarray) and got.shape == (len(Iq), d) and got.dtype.kind in "iu" and got.tolist() == want,
@@ -508,6 +746,12 @@ def prop_qtt(case, ctx):
     got = ctx.lib(teneva.ind_qtt_to_tt, np.array(Iq[0], dtype=int), q)
     ctx.check(isinstance(got, np.ndarray) and got.shape == (d,) and got.tolist() == want[0],
               "ind_qtt_to_tt(single array) differs from the bit formula", got=np.asarray(got).tolist(), want=want[0], q=q)
+
+
+def run_qtt(ctx, Y, k, q, d, ex, qsep=False, labels=True):
+    """optima_qtt on the TT-tensor Y of shape [2^q]*d (qsep: rank 1 after quantisation by construction)."""
+    n = [2 ** q] * d
+    Y0 = [G.copy() for G in Y]
 
     # the tensor that is actually searched, its distance to Y (measured, capped by an a-priori bound)
     Zq = ctx.lib(teneva.tt_to_qtt, Y, 1.E-12, 100)
@@ -529,13 +773,14 @@ def prop_qtt(case, ctx):
     r1_in = is_rank1(Y)
     # tolerances: the beam runs on Zq; a QTT image that is rank 1 only up to delta-sized junk gets the junk added
     ref = Ref(Y, extra_delta=delta, search=Zq, relative=False)
-    if r1_in and (kind == "qsep" or q == 1):
+    if r1_in and (qsep or q == 1):
         # rank 1 by construction after quantisation (up to junk of size delta in spurious rank directions, which can
         # flip a greedy choice between prefixes whose sub-tensor norms differ by < delta*sqrt(size), q*d times)
         ref_r1 = Ref(Y, extra_delta=delta * (1 + q * d * math.sqrt(F.size)), search=Zq, relative=True)
-    labels_for(ctx, ref, k)
-    if r1_in:
-        ctx.label("qtt_image_rank1" if not q_not_rank1 else "qtt_image_not_rank1")
+    if labels:
+        labels_for(ctx, ref, k)
+        if r1_in:
+            ctx.label("qtt_image_rank1" if not q_not_rank1 else "qtt_image_not_rank1")
 
     out = ctx.lib(teneva.optima_qtt, Y, k)
     ctx.check(isinstance(out, tuple) and len(out) == 4, "optima_qtt: not a 4-tuple")
@@ -545,8 +790,7 @@ def prop_qtt(case, ctx):
     y_min = check_value(ctx, ref, a, y_min, "optima_qtt(y_min)", ex)
     y_max = check_value(ctx, ref, b, y_max, "optima_qtt(y_max)", ex)
     ctx.check(y_min <= y_max, "optima_qtt: y_min > y_max", y_min=y_min, y_max=y_max)
-    for G, G0 in zip(Y, Y0):
-        ctx.check(np.array_equal(G, G0), "the input TT-cores were modified")
+    check_unmodified(ctx, Y, Y0)
 
     # "transformed into the QTT-format and then optima_tt is applied": the indices are those of the QTT search, mapped back
     jm, _, jM, _ = ctx.lib(teneva.optima_tt, Zq, k)
@@ -556,10 +800,26 @@ def prop_qtt(case, ctx):
 
     if k >= ref.size or not r1_in:
         check_pair(ctx, ref, y_min, y_max, k, "optima_qtt", rank1_input=False)
-    elif kind == "qsep" or q == 1:
+    elif qsep or q == 1:
         check_pair(ctx, ref_r1, y_min, y_max, k, "optima_qtt", q_not_rank1=False, rank1_input=True)
     else:
         check_pair(ctx, ref, y_min, y_max, k, "optima_qtt", q_not_rank1=(q >= 2 and q_not_rank1), rank1_input=True)
+
+
+def prop_qtt(case, ctx):
+    q, d, k, kind = case["q"], case["d"], case["k"], case["kind"]
+    if kind == "qsep":
+        Y = build_qsep(case["Y"])
+        ex = case["Y"]["fam"] == "smallint"
+    else:
+        Y = gen.build_tt(case["Y"])
+        ex = exact_ok(case["Y"])
+        ctx.label(*gen.spec_labels(case["Y"]))
+        if kind == "spike":
+            Y, ex = add_spikes(Y, case["spikes"]), False
+    ctx.label(f"q=={q}", "kind:" + kind)
+    check_ind_qtt_to_tt(ctx, case["Iq"], d, q)
+    run_qtt(ctx, Y, k, q, d, ex, qsep=(kind == "qsep"))
 
 
 # ------------------------------------------------------------------------------------------------ functional variant
@@ -576,6 +836,13 @@ def func_cases(draw, tier):
         case["cores"] = [[draw(val) for _ in range(m)] for m in n]
     else:
         case["seed"] = draw(gen.seeds)
+    if draw(st.integers(0, 2)) == 0:
+        # call history: the same list object held other coefficients of the same shape at an earlier call
+        case["hist"] = {"fam": draw(st.sampled_from(["gauss", "float", "smallint", "dyadic"])), "seed": draw(gen.seeds),
+                        "zero_tail": draw(st.integers(0, 3)) == 0, "same_args": draw(st.booleans()),
+                        "k": draw(st.integers(1, 5)), "k_loc": draw(st.one_of(st.none(), st.integers(1, 4))),
+                        "ret_all": draw(st.booleans()), "mode": draw(st.sampled_from(FILL_MODES_ANY)),
+                        "mask": [draw(st.integers(0, 3)) != 0 for _ in n]}
     return case
 
 
@@ -604,22 +871,16 @@ def build_func(case):
     return A
 
 
-def prop_func(case, ctx):
-    A = build_func(case)
-    n, d, k, k_loc = case["n"], len(case["n"]), case["k"], case["k_loc"]
+def check_func(ctx, A, k, k_loc, ret_all=True):
+    """optima_func_tt_beam on the rank-1 coefficient tensor A: point in the cube, maximum modulus of the interpolant attained."""
+    n, d = [G.shape[1] for G in A], len(A)
     A0 = [G.copy() for G in A]
     cheb = np.polynomial.chebyshev.chebval
-    fmax = [float(np.max(np.abs(cheb(GRID, G[0, :, 0])))) for G in A]
+    fmax = [float(np.max(np.abs(cheb(GRID, G[0, :, 0])))) for G in A0]
     bound = float(math.prod(fmax))
-    ctx.label("fam:" + case["fam"], f"k=={k}", "k_loc:" + ("None" if k_loc is None else "int"))
-    if 1 in n:
-        ctx.label("has_mode_1")
-    if bound == 0:
-        ctx.label("zero_function")
-    ctx.nontrivial(sum(1 for m in n if m >= 3) >= 2 and bound > 0)
 
     def value_at(x):
-        return float(math.prod(float(cheb(float(x[j]), A[j][0, :, 0])) for j in range(d)))
+        return float(math.prod(float(cheb(float(x[j]), A0[j][0, :, 0])) for j in range(d)))
 
     x = ctx.lib(teneva.optima_func_tt_beam, A, k, k_loc)
     ctx.check(isinstance(x, np.ndarray) and x.shape == (d,) and x.dtype.kind == "f", "optima_func_tt_beam: not a float array of length d",
@@ -632,14 +893,40 @@ def prop_func(case, ctx):
     ctx.check(abs(float(got)) >= (1 - 1e-6) * bound and abs(float(got) - v) <= 1e-9 * max(bound, abs(v)),
               "func_get at the returned point is below the maximum modulus / differs from the Chebyshev evaluation",
               func_get=float(got), value=v, bound=bound)
-
-    X = ctx.lib(teneva.optima_func_tt_beam, A, k, k_loc, True)
-    ctx.check(isinstance(X, np.ndarray) and X.ndim == 2 and X.shape[1] == d and 1 <= X.shape[0] <= k,
-              "optima_func_tt_beam(ret_all): not an array of 1..k points with d columns", got=repr(getattr(X, "shape", None)), k=k)
-    ctx.check(bool(np.all(np.isfinite(X)) and np.all(X >= -1) and np.all(X <= 1)), "optima_func_tt_beam(ret_all): point outside [-1, 1]^d")
-    ctx.check(np.array_equal(X[0], x), "optima_func_tt_beam: first point with ret_all differs from the single answer", a=X[0].tolist(), b=x.tolist())
+    if ret_all:
+        X = ctx.lib(teneva.optima_func_tt_beam, A, k, k_loc, True)
+        ctx.check(isinstance(X, np.ndarray) and X.ndim == 2 and X.shape[1] == d and 1 <= X.shape[0] <= k,
+                  "optima_func_tt_beam(ret_all): not an array of 1..k points with d columns", got=repr(getattr(X, "shape", None)), k=k)
+        ctx.check(bool(np.all(np.isfinite(X)) and np.all(X >= -1) and np.all(X <= 1)), "optima_func_tt_beam(ret_all): point outside [-1, 1]^d")
+        ctx.check(np.array_equal(X[0], x), "optima_func_tt_beam: first point with ret_all differs from the single answer", a=X[0].tolist(), b=x.tolist())
     for G, G0 in zip(A, A0):
         ctx.check(np.array_equal(G, G0), "the input coefficient cores were modified")
+    return bound
+
+
+def prop_func(case, ctx):
+    A = build_func(case)
+    n, k, k_loc = case["n"], case["k"], case["k_loc"]
+    ctx.label("fam:" + case["fam"], f"k=={k}", "k_loc:" + ("None" if k_loc is None else "int"))
+    if 1 in n:
+        ctx.label("has_mode_1")
+    h = case.get("hist")
+    if h:
+        # the list object first holds other coefficients and is searched, then it is refilled with A (see `refill`)
+        L = [G.copy() for G in build_func({"n": n, "fam": h["fam"], "seed": h["seed"], "zero_tail": h["zero_tail"]})]
+        if h["same_args"]:
+            check_func(ctx, L, k, k_loc, h["ret_all"])
+        else:
+            check_func(ctx, L, h["k"], h["k_loc"], h["ret_all"])
+        mask = h["mask"] if any(h["mask"]) and h["mode"] not in ("slice", "clear_extend") else [True] * len(n)
+        src = [A[j] if mask[j] else L[j].copy() for j in range(len(n))]
+        A = refill(L, src, h["mode"], mask)
+        ctx.label("history", "fill:" + h["mode"], "fill:all_cores" if all(mask) else "fill:some_cores")
+        ctx.inner(1)
+    bound = check_func(ctx, A, k, k_loc)
+    if bound == 0:
+        ctx.label("zero_function")
+    ctx.nontrivial(sum(1 for m in n if m >= 3) >= 2 and bound > 0)
 
 
 # ------------------------------------------------------------------------------------------- hidden extremum (adversarial for the beam)
@@ -692,6 +979,8 @@ SUBCHECKS = [
     Sub("hidden", prop_hidden, strategy=hidden_cases, quick=40, thorough=600),
     Sub("tt", prop_tt, strategy=tt_cases, quick=100, thorough=1500),
     Sub("rank1", prop_tt, strategy=rank1_cases, quick=120, thorough=2000),
+    Sub("spike", prop_spike, strategy=spike_cases, quick=60, thorough=1000),
+    Sub("history", prop_history, strategy=history_cases, quick=60, thorough=1000),
     Sub("small", prop_small, enumerate=small_cases, exhaustive=True),
     Sub("qtt", prop_qtt, strategy=qtt_cases, quick=80, thorough=1200),
     Sub("func", prop_func, strategy=func_cases, quick=100, thorough=1500),
